@@ -22,6 +22,7 @@ macro_rules! props {
 }
 
 props! {
+    "C01" => c01,
     "C02" => c02,
     "C03" => c03,
     "C04" => c04,
